@@ -79,6 +79,15 @@ pub fn inv(g: &G) -> bool {
     }
 }
 
+/// `small`: used only to obtain a counterexample with small counters for native replay
+pub fn any_g_s(small: bool) -> G {
+    let g = any_g();
+    if small {
+        kani::assume(g.b <= 3 && g.s <= 3 && g.s >= -3 && g.h[0] <= 3 && g.h[1] <= 3 && g.h[2] <= 3);
+    }
+    g
+}
+
 pub fn any_g() -> G {
     let g = G {
         merged: kani::any(),
@@ -136,7 +145,7 @@ fn owner_is(p: NonNull<RcBox<P>>, tid: usize) -> bool {
 }
 
 // ---------------------------------------------------------------- base case
-fn body_base_new(_mask: bool) {
+fn body_base_new(_mask: bool, _small: bool) {
     unsafe { CUR_TID = OWNER };
     let a = BiasedRc::new(P(7));
     let g = unsafe { read(a.ptr, [1, 0, 0], false) };
@@ -147,8 +156,8 @@ fn body_base_new(_mask: bool) {
 }
 
 // ---------------------------------------------------------------- clone
-fn body_step_clone(_mask: bool) {
-    let g = any_g();
+fn body_step_clone(_mask: bool, small: bool) {
+    let g = any_g_s(small);
     let t = any_tid();
     kani::assume(g.h[t - 1] >= 1); // the acting thread holds a handle
     let a = build(&g);
@@ -170,8 +179,8 @@ fn body_step_clone(_mask: bool) {
 }
 
 // ---------------------------------------------------------------- drop
-fn body_step_drop(mask_stale_queue: bool) {
-    let g = any_g();
+fn body_step_drop(mask_stale_queue: bool, small: bool) {
+    let g = any_g_s(small);
     let t = any_tid();
     kani::assume(g.h[t - 1] >= 1);
     let a = build(&g);
@@ -209,8 +218,8 @@ fn body_step_drop(mask_stale_queue: bool) {
 }
 
 // ---------------------------------------------------------------- get_mut / has_unique_ref
-fn body_step_get_mut(_mask: bool) {
-    let g = any_g();
+fn body_step_get_mut(_mask: bool, small: bool) {
+    let g = any_g_s(small);
     let t = any_tid();
     kani::assume(g.h[t - 1] >= 1);
     let mut a = build(&g);
@@ -231,8 +240,8 @@ fn body_step_get_mut(_mask: bool) {
 }
 
 // ---------------------------------------------------------------- make_mut
-fn body_step_make_mut(_mask: bool) {
-    let g = any_g();
+fn body_step_make_mut(_mask: bool, small: bool) {
+    let g = any_g_s(small);
     let t = any_tid();
     kani::assume(g.h[t - 1] >= 1);
     let mut a = build(&g);
@@ -270,8 +279,8 @@ fn body_step_make_mut(_mask: bool) {
 }
 
 // ---------------------------------------------------------------- try_unwrap
-fn body_step_try_unwrap(mask_stale_queue: bool) {
-    let g = any_g();
+fn body_step_try_unwrap(mask_stale_queue: bool, small: bool) {
+    let g = any_g_s(small);
     let t = any_tid();
     kani::assume(g.h[t - 1] >= 1);
     let a = build(&g);
@@ -300,8 +309,8 @@ fn body_step_try_unwrap(mask_stale_queue: bool) {
 }
 
 // ---------------------------------------------------------------- explicit merge (owner processes its queue entry)
-fn body_step_explicit_merge(_mask: bool) {
-    let g = any_g();
+fn body_step_explicit_merge(_mask: bool, small: bool) {
+    let g = any_g_s(small);
     kani::assume(g.in_queue);
     let a = build(&g);
     let p = a.ptr;
@@ -331,26 +340,34 @@ fn body_step_explicit_merge(_mask: bool) {
 
 // one Kani harness per (operation, known-finding mask) pair
 macro_rules! rc_harness {
-    ($name:ident, $body:ident, $mask:expr) => {
+    ($name:ident, $body:ident, $mask:expr, $small:expr) => {
         #[kani::proof]
         #[kani::unwind(3)]
         #[kani::stub(ThreadId::current_thread, cur_tid_stub)]
         #[kani::stub(std::rt::thread_cleanup, noop)]
         #[kani::stub(QueueHandle::enqueue, enqueue_stub)]
         fn $name() {
-            $body($mask)
+            $body($mask, $small)
         }
     };
 }
-rc_harness!(rc_base_new, body_base_new, false);
-rc_harness!(rc_step_clone, body_step_clone, false);
-rc_harness!(rc_step_drop, body_step_drop, false);
-rc_harness!(rc_step_get_mut, body_step_get_mut, false);
-rc_harness!(rc_step_make_mut, body_step_make_mut, false);
-rc_harness!(rc_step_try_unwrap, body_step_try_unwrap, false);
-rc_harness!(rc_step_explicit_merge, body_step_explicit_merge, false);
-rc_harness!(rc_step_drop__kf_stale_queue, body_step_drop, true);
-rc_harness!(rc_step_try_unwrap__kf_stale_queue, body_step_try_unwrap, true);
+rc_harness!(rc_base_new, body_base_new, false, false);
+rc_harness!(rc_step_clone, body_step_clone, false, false);
+rc_harness!(rc_step_drop, body_step_drop, false, false);
+rc_harness!(rc_step_get_mut, body_step_get_mut, false, false);
+rc_harness!(rc_step_make_mut, body_step_make_mut, false, false);
+rc_harness!(rc_step_try_unwrap, body_step_try_unwrap, false, false);
+rc_harness!(rc_step_explicit_merge, body_step_explicit_merge, false, false);
+rc_harness!(rc_step_drop__kf_stale_queue, body_step_drop, true, false);
+rc_harness!(rc_step_try_unwrap__kf_stale_queue, body_step_try_unwrap, true, false);
+rc_harness!(rc_step_drop__kf_stale_queue__small, body_step_drop, true, true);
+rc_harness!(rc_step_try_unwrap__kf_stale_queue__small, body_step_try_unwrap, true, true);
+rc_harness!(rc_step_clone__small, body_step_clone, false, true);
+rc_harness!(rc_step_drop__small, body_step_drop, false, true);
+rc_harness!(rc_step_get_mut__small, body_step_get_mut, false, true);
+rc_harness!(rc_step_make_mut__small, body_step_make_mut, false, true);
+rc_harness!(rc_step_try_unwrap__small, body_step_try_unwrap, false, true);
+rc_harness!(rc_step_explicit_merge__small, body_step_explicit_merge, false, true);
 
 // ---------------------------------------------------------------- bit level (family 2)
 #[kani::proof]
